@@ -73,6 +73,15 @@ Check guard_transparent : forall (b : bytes) v,
   result (dec_pa cfg_guarded b) = Val v.
 Print Assumptions guard_transparent.
 
+(* ... and it only removes behaviours: a value returned under the guard is exactly the value the
+   unguarded decoder returns (the patch cannot make the decoder accept anything new). *)
+Theorem guard_only_removes : forall (b : bytes) v,
+  result (dec_pa cfg_guarded b) = Val v -> result (dec_pa cfg_unguarded b) = Val v.
+Proof. exact guard_sound_64. Qed.
+Check guard_only_removes : forall (b : bytes) v,
+  result (dec_pa cfg_guarded b) = Val v -> result (dec_pa cfg_unguarded b) = Val v.
+Print Assumptions guard_only_removes.
+
 (* ---- REFUTED for the decoder as it is (cfg_unguarded); witnesses are replayed on /repo by the harness ---- *)
 
 Theorem dec_no_panic_refuted : exists b, result (dec_pa cfg_unguarded b) = Panic PCapacity.
